@@ -469,6 +469,60 @@ func init() {
 				},
 			},
 			{
+				Name: "havoc", N: q(60000, 3000000),
+				Run: func(c *fw.Case) {
+					// unguided stand-in for a fuzzer's havoc phase: 1..8 stacked random edits of a reference image
+					s := c03st(c.W)
+					t, _, img := seedImage(c, ts())
+					tt, dd := s.byType[t.Family+"."+t.Go], s.byFamily[t.Family]
+					r := c.R
+					for round := 0; round < 6; round++ {
+						m := append([]byte(nil), img...)
+						for k, n := 0, r.Range(1, 8); k < n && len(m) > 0; k++ {
+							switch r.Intn(8) {
+							case 0: // bit flip
+								i := r.Intn(len(m))
+								m[i] ^= 1 << uint(r.Intn(8))
+							case 1: // interesting byte
+								m[r.Intn(len(m))] = byte(r.Pick(0, 1, 0x1b, 0x7f, 0x80, 0xfe, 0xff))
+							case 2: // delete a block
+								i := r.Intn(len(m))
+								j := i + r.Range(1, 8)
+								if j > len(m) {
+									j = len(m)
+								}
+								m = append(m[:i], m[j:]...)
+							case 3: // duplicate a block
+								i := r.Intn(len(m))
+								j := i + r.Range(1, 12)
+								if j > len(m) {
+									j = len(m)
+								}
+								blk := append([]byte(nil), m[i:j]...)
+								m = append(m[:j], append(blk, m[j:]...)...)
+							case 4: // insert zeros
+								i := r.Intn(len(m) + 1)
+								m = append(m[:i], append(make([]byte, r.Range(1, 6)), m[i:]...)...)
+							case 5: // 16-bit interesting value (kept small enough not to be an allocation test by itself)
+								if len(m) >= 2 {
+									i := r.Intn(len(m) - 1)
+									binary.BigEndian.PutUint16(m[i:], uint16(r.Pick(0, 1, 0xff, 0x100, 0x7fff, 0x8000, 0xffff)))
+								}
+							case 6: // fix up the length word
+								if len(m) >= 4 {
+									binary.BigEndian.PutUint32(m, uint32(len(m)))
+								}
+							default: // truncate
+								m = m[:r.Intn(len(m)+1)]
+							}
+						}
+						err, _ := monitor(c, tt, m)
+						monitor(c, dd, m)
+						c.Cover(fmt.Sprintf("havoc/%s/%s", t.Key(), outcome(err)))
+					}
+				},
+			},
+			{
 				Name: "tlvtails", N: q(100000, 3000000),
 				Run: func(c *fw.Case) {
 					s := c03st(c.W)
